@@ -713,6 +713,10 @@ class Interp:
             return v[2]
         if h == 'tuple':
             return ('tuple',) + tuple(self.rtag(st, x, depth + 1) for x in v[1])
+        if h == 'int':
+            return ('int', v[1])
+        if h == 'adt' and v[1] == OPTION:
+            return ('none',) if v[2] == 0 else ('some', self.rtag(st, v[3][0], depth + 1))
         return (h,)
 
     # ------------------------------------------------------------------ key scans (DESIGN §2.2)
@@ -817,7 +821,9 @@ class Interp:
                    'unchecked index %s is not proved < N (%s); known: %s' % (idx, ms.cap, self.facts_about(st, [idx, ms.len, ms.cap])),
                    'unproven', sample='%s < %s' % (idx, ms.cap))
         if not ok:
+            # continue as if the obligation held, but remember that this path rests on an assumption
             z.add_lt(idx, ms.cap)
+            st.assumed = st.assumed + (('O1', prim),)
         return ok
 
     def struct_is_cap(self, st, mid, hi):
